@@ -121,6 +121,20 @@ func c05r2(c *Check) {
 	if n == 0 {
 		anchorFail("no send on Conn.In")
 	}
+	// no goroutine started from the relay loop may send on Conn.In
+	for fn := range viaSync {
+		for _, e := range cg.Out[fn] {
+			if e.Kind != EdgeGo || e.Callee == nil {
+				continue
+			}
+			sub := cg.Reach([]*ssa.Function{e.Callee}, syncKinds, nil)
+			for g := range sub {
+				if len(sendsOn(g, connIn)) > 0 {
+					c.Violate(FuncName(fn)+" hands lines to Conn.In through a goroutine", c.At(e.Site), "`go` between taking a line from Destination.In and queueing it on the connection: concurrent goroutines race for the queue, so lines are reordered")
+				}
+			}
+		}
+	}
 	hd := c.P.Func("destination", "*Conn", "HandleData")
 	viaHD := cg.Reach([]*ssa.Function{hd}, syncKinds, nil)
 	cw := c.P.Func("destination", "*Conn", "Write")
